@@ -1364,8 +1364,10 @@ func (r *Restore) Peering(p *pbpeering.Peering) error {
 		return fmt.Errorf("failed restoring peering: %w", err)
 	}
 
-	if err := updatePeeringTableIndexes(r.tx, p.ModifyIndex, p.PartitionOrDefault()); err != nil {
-		return err
+	// Rows are restored in key order, not in index order: keep the highest
+	// index seen (and never lower the table index restored from the snapshot).
+	if err := indexUpdateMaxTxn(r.tx, p.ModifyIndex, tablePeering); err != nil {
+		return fmt.Errorf("failed updating table index: %w", err)
 	}
 
 	return nil
@@ -1375,8 +1377,8 @@ func (r *Restore) PeeringTrustBundle(ptb *pbpeering.PeeringTrustBundle) error {
 	if err := r.tx.Insert(tablePeeringTrustBundles, ptb); err != nil {
 		return fmt.Errorf("failed restoring peering trust bundle: %w", err)
 	}
-	if err := updatePeeringTrustBundlesTableIndexes(r.tx, ptb.ModifyIndex, ptb.PartitionOrDefault()); err != nil {
-		return err
+	if err := indexUpdateMaxTxn(r.tx, ptb.ModifyIndex, tablePeeringTrustBundles); err != nil {
+		return fmt.Errorf("failed updating table index: %w", err)
 	}
 	return nil
 }
